@@ -7,7 +7,7 @@ import common as C
 from common import Failure, coq_list
 
 ID = "C04"
-GEN = []
+GEN = ["gen_storer_wrappers"]
 ALLOWED_AXIOMS = []
 TRUSTED = [
     "Coq 8.16.1 kernel + vm_compute (no native_compute)",
@@ -15,6 +15,9 @@ TRUSTED = [
     "_update_after_merge of the three classes, ParticleObjectStorer.__init__ and the loaders' hand-over "
     "(closed form: selected events, constructor filters per event, rows (first label + j, size)); tied to the "
     "real classes by this run's correspondence on generated Oscar / Jetscape files and particle-object lists",
+    "translator tools/py2coq/gen_storer_wrappers.py (tables extractor, fail-closed): accepts the filter methods of BaseStorer / "
+    "Oscar / Jetscape / ParticleObjectStorer only in the form `particle_list_ = f(particle_list_, args); recount; return self` "
+    "or `raise NotImplementedError`",
     "filters enter the theorems as arbitrary functions (particle-level: map f with f [] = []; event-level: filter keep "
     "with [] -> [[]]); that every function of Filter.py has one of the two shapes is C03's theorem, and is "
     "exercised here because the concrete f / keep of each case are read off the real Filter.py functions",
@@ -24,6 +27,10 @@ ASSUMPTIONS = [
     "real operands before and after every + (and at the end of each history) in the correspondence and the oracle",
     "admissible operation = a filter call that Filter.py accepts (valid argument, method implemented for the class) "
     "or + of a storer of the same class (and same Jetscape particle type)",
+    "the loaders' hand-over is modelled in closed form (selected events, constructor filters per event, an event emptied by "
+    "the filters is dropped unless it was empty in the file, rows (first label + j, size), E0 = ([[]], 0, array([])) when "
+    "nothing is left); files number their events 0..n-1 (Oscar) / 1..n (JETSCAPE) as SMASH / JETSCAPE write them; the read "
+    "loops and the line arithmetic are C01/C02",
     "extras: Oscar event_end_lines_ and Jetscape sigmaGen_[0] are modelled and compared, sigmaGen_[1] (a sqrt) and "
     "impact_parameters_ are not",
 ]
@@ -228,6 +235,13 @@ class Engine:
             sg = float(s.sigmaGen_[0])
         return {"n": None if n is None else int(n), "counts": c, "objs": objs, "plist": plo, "xend": xe, "sigma": sg}
 
+    def labels(self, s):
+        try:
+            cnt = s.num_output_per_event()
+            return [int(x) for x in cnt.reshape(-1, 2)[:, 0]] if isinstance(cnt, np.ndarray) and cnt.size else []
+        except Exception:
+            return []
+
     def snapshot(self, s):
         cnt = s.num_output_per_event()
         return (s.num_events(), None if cnt is None else (np.asarray(cnt).shape, np.asarray(cnt).tolist()),
@@ -372,13 +386,20 @@ class Engine:
             stop = False
             for si, st in enumerate(d["hist"]):
                 where = f"storer {di} step {si} {json.dumps(st)}"
-                if st[0] == "f":
+                if st[0] == "inject":
+                    tr["ops"].append(None)
+                    v = st[1]["vals"]
+                    s.num_output_per_event_ = (list(v) if st[1]["kind"] == "PyL" else
+                                               np.array(v, dtype=int).reshape(-1, 2) if st[1]["kind"] == "A2" else np.array(v, dtype=int))
+                    s.num_events_ = st[2]
+                    mirror = None
+                elif st[0] == "f":
                     name, args = st[1], st[2]
                     contents = [[self.ident.get(id(p), -1) for p in e] for e in s.particle_objects_list()]
                     pids = sorted({p for e in contents for p in e})
                     try:
                         tr["ops"].append(self.table(name, args, contents, pids))
-                        new_mirror = self.plain(name, args, [list(e) for e in mirror]) if (FILTERS[name][0] == "PL" or mirror) else []
+                        new_mirror = None if mirror is None else (self.plain(name, args, [list(e) for e in mirror]) if (FILTERS[name][0] == "PL" or mirror) else [])
                     except Exception as e:
                         tr["ops"].append({"kind": "PL", "keep": []})
                         new_mirror = None
@@ -402,8 +423,7 @@ class Engine:
                     else:
                         sa, sb = self.snapshot(s), self.snapshot(other)
                         ha, hb = self.held(s), self.held(other)
-                        la = [int(x) for x in np.asarray(s.num_output_per_event()).reshape(-1, 2)[:, 0]] if np.size(s.num_output_per_event()) and isinstance(s.num_output_per_event(), np.ndarray) else []
-                        lb = [int(x) for x in np.asarray(other.num_output_per_event()).reshape(-1, 2)[:, 0]] if np.size(other.num_output_per_event()) and isinstance(other.num_output_per_event(), np.ndarray) else []
+                        la, lb = self.labels(s), self.labels(other)
                         try:
                             c = s + other
                         except Exception as e:
@@ -440,11 +460,13 @@ class Engine:
                 if stop:
                     break
                 tr["steps"].append(self.observe(s))
-                if not (st[-1] == "reject"):
+                if not (st[-1] == "reject") and st[0] != "inject":
                     self.viol += self.check_state(s, where, mirror)
             for o, snap in frozen:
                 if self.snapshot(o) != snap:
                     self.viol.append(f"storer {di}: an operand of an earlier + changed later in the history")
+            if d.get("noprop"):          # states injected from outside the interface: model validation only
+                self.viol = [m for m in self.viol if not m.startswith(f"storer {di} ")]
             self.objs.append(None if stop else s)
         return self
 
@@ -632,7 +654,12 @@ def coq_case(case, eng):
     for d, tr in zip(case["defs"], eng.trace):
         hs = []
         for st, tab, ob in zip(d["hist"], tr["ops"], tr["steps"]):
-            if st[0] == "f":
+            if st[0] == "inject":
+                k, v = st[1]["kind"], st[1]["vals"]
+                arr = ("(A2 " + coq_list([f"({z(v[i])}, {z(v[i+1])})" for i in range(0, len(v), 2)]) + ")") if k == "A2" else \
+                      f"({k} {coq_list([z(a) for a in v])})"
+                hop = f"(HInject {arr} {z(st[2])})"
+            elif st[0] == "f":
                 hop = f"(HF {ckop(tab)})"
             elif st[0] == "addself":
                 hop = "HAddSelf"
@@ -708,6 +735,27 @@ def stress_cases():
         out.append({"defs": [a, e3]})
         a4 = copy.deepcopy(a); a4["hist"] = [["add", 1]]
         out.append({"defs": [b, e, a4]})
+        # states outside the invariant, written into the real object: the model's error branches
+        for arr, n in [({"kind": "A1", "vals": [1, 2]}, 1), ({"kind": "A1", "vals": [1, 2]}, 3), ({"kind": "A1", "vals": [5]}, 1),
+                       ({"kind": "PyL", "vals": [2, 1, 1]}, 3), ({"kind": "PyL", "vals": [2]}, 1), ({"kind": "PyL", "vals": []}, 1),
+                       ({"kind": "A2", "vals": []}, 1), ({"kind": "A2", "vals": []}, 2), ({"kind": "A2", "vals": [0, 1]}, 2),
+                       ({"kind": "A2", "vals": [0, 9, 1, 9, 2, 9]}, 3), ({"kind": "A2", "vals": [0, 9]}, 1),
+                       ({"kind": "A2", "vals": [3, 1, 4, 1, 5, 0]}, 0), ({"kind": "A1", "vals": []}, 2), ({"kind": "A1", "vals": [1, 2, 3]}, 1)]:
+            for follow in ([["f", "charged_particles", []]], [["f", "multiplicity_cut", [[99, None]]]], [["addself"]], [["add", 0]], []):
+                d0 = copy.deepcopy(base)
+                d = copy.deepcopy(base)
+                for ev in d["events"]:
+                    for p in ev:
+                        p["pid"] += 100
+                d["noprop"] = True
+                d["hist"] = [["inject", arr, n]] + [st + ["reject"] if st[0] != "f" else st + ["reject"] for st in follow]
+                out.append({"defs": [d0, d]})
+        # every filter wrapper of the class once, followed by a second filter and an addition
+        for name in sorted(FILTERS):
+            if CLS[cls] in FILTERS[name][1]:
+                d = copy.deepcopy(base)
+                d["hist"] = [["f", name, FILTERS[name][2](rng)], ["f", "charged_particles", []], ["addself"]]
+                out.append({"defs": [d]})
     out.append({"defs": [{"cls": "pobj", "events": [], "sel": None, "filters": None,
                           "hist": [["f", "charged_particles", []], ["f", "multiplicity_cut", [[1, None]]], ["addself"]]}]})
     out.append({"defs": [{"cls": "oscar", "events": [], "sel": None, "filters": None, "hist": [], "reject": True}]})
@@ -762,9 +810,18 @@ def correspondence(ctx, model_ok=True):
            "samples": cases[-3:], "model_runner": "Eval vm_compute in generated cases files (sharded coqc)",
            "failures": [], "broken": []}
     # the property text on the real objects, for every case
+    shrunk = set()
     for c, e in zip(cases, engines):
         if e.viol:
-            out["failures"].append(Failure(c, "property oracle on the real objects: " + e.viol[0], key=finding_key(e.viol[0]), on_impl=e.viol[0]))
+            key = finding_key(e.viol[0])
+            msg = e.viol[0]
+            if key not in shrunk and len(shrunk) < 6:      # one shrunk replay per class of failure
+                shrunk.add(key)
+                small = shrink(c, key, seconds=20)
+                m2 = oracle(small)
+                if m2:
+                    c, msg = small, m2
+            out["failures"].append(Failure(c, "property oracle on the real objects: " + msg, key=key, on_impl=msg))
     if not model_ok:
         out["broken"].append({"what": "correspondence not run: the model's proofs/definitions did not build"})
         return out
@@ -789,7 +846,7 @@ def correspondence(ctx, model_ok=True):
         return out
     out["exact_agreements"] = sum(1 for c in codes if c == 0)
     out["traces_validated_against_impl"] = out["exact_agreements"]
-    already = {id(f.case) for f in out["failures"]}
+    already = {id(c) for c, e in zip(cases, engines) if e.viol}
     for c, e, code in zip(cases, engines, codes):
         if code >= 2 and id(c) not in already:
             out["failures"].append(Failure(c, f"model and implementation disagree on {CODES.get(code, code)} (code {code})"))
@@ -898,18 +955,20 @@ def _smaller(c):
                 yield {"defs": e}
 
 
-def shrink(case):
+def shrink(case, key=None, seconds=60):
+    """greedy delta debugging with the oracle (keeping the class of the failure when one is given)"""
     import time
     cur, changed, budget, t0 = case, True, 400, time.time()
     while changed and budget > 0:
         changed = False
         for cand in _smaller(cur):
             budget -= 1
-            if budget <= 0 or time.time() - t0 > 60:
+            if budget <= 0 or time.time() - t0 > seconds:
                 budget = 0
                 break
             try:
-                if oracle(cand):
+                m = oracle(cand)
+                if m and (key is None or finding_key(m) == key):
                     cur, changed = cand, True
                     break
             except Exception:
